@@ -70,9 +70,13 @@ class Scale(tuple):
 
     def degree_to_key(self, degree, acc=0):
         # Accidentals only work for et scales? Why not a fraction?
-        spo = self.tuning._spo
+        tuning = self._tuning
+        spo = tuning._spo
         l = len(self)
-        base_key = (spo * (degree // l)) + self[int(degree) % l]
+        # Scale degrees index the tuning, tuning values are semitones,
+        # keys are counted in steps (equal to the index for et tunings).
+        step = tuning[self[int(degree) % l]] * (len(tuning) / 12.0)
+        base_key = (spo * (degree // l)) + step
         if acc == 0:
             return base_key
         else:
